@@ -332,6 +332,19 @@ Definition ev_ok (e : ev) : Prop :=
   | _ => True
   end.
 
+(* ---------- vocabulary of the theorems ---------- *)
+Definition elapsed (e : ev) : Z := match e with Adv dt => Z.max 0 dt | _ => 0 end.
+Fixpoint elapsed_all (evs : list ev) : Z := match evs with [] => 0 | e :: r => elapsed e + elapsed_all r end.
+Definition no_resolve (evs : list ev) : Prop := Forall (fun e => is_resolve e = false) evs.
+Definition res_count (evs : list ev) : Z := len (filter is_resolve evs).
+(* the state reached from boot by a history *)
+Definition after (pre : list ev) : st := fst (run_from true init pre).
+(* the address held in `ip` while `success` is set comes from an acceptable reply received since the last resolve *)
+Definition justified (pre : list ev) (a : list Z) : Prop :=
+  exists pre1 b mid, pre = pre1 ++ Recv b :: mid /\ no_resolve mid /\
+                     reg (after pre1) = true /\ valid_reply (dlen (after pre1)) b a.
+
+
 (* ---------- wire interface for the harness ---------- *)
 Definition ev_of_wire (w : wire) : ev :=
   match w with (k, a, b) =>
